@@ -23,7 +23,7 @@ Read with Python `ast` (the repo code is NOT executed).  Two kinds of output.
    nested _func/_run_brentq the statements that matter for aliasing and in-place modification, as a
    `Effects.Prog` (Model/OrderStatsEffects.lean):
 
-       x = np.asarray(y) | x = y          -> share x y        (x may share y's buffer)
+       x = np.asarray(y[, dtype=…]) | x = y   -> share x y    (x may share y's buffer)
        x = <fresh expression>             -> fresh x          (arithmetic, whitelisted calls, literals, comprehensions)
        x.attr = ... | x[...] = ... | x op= ...   -> write x    (writes x's buffer)
        if/elif/else -> alt ; while -> loop ; return / raise / docstring / nested def -> skip
@@ -407,8 +407,9 @@ def _block(stmts, nm, fname):
             if isinstance(t, ast.Name):
                 if isinstance(v, ast.Name):
                     out.append(("alias", nm.id(t.id), nm.id(v.id)))
-                elif (isinstance(v, ast.Call) and _is_attr(v.func, "np", "asarray") and len(v.args) == 1 and not v.keywords
-                      and isinstance(v.args[0], ast.Name)):
+                elif (isinstance(v, ast.Call) and any(_is_attr(v.func, "np", f) for f in ("asarray", "asanyarray", "atleast_1d"))
+                      and len(v.args) == 1 and isinstance(v.args[0], ast.Name)
+                      and all(k.arg in ("dtype", "order") for k in v.keywords)):
                     out.append(("alias", nm.id(t.id), nm.id(v.args[0].id)))
                 else:
                     _check_fresh(v, fname)
